@@ -158,6 +158,7 @@ class MultimediaAuthRequest(MultimediaAuth):
     sip_auth_data_item: SipAuthDataItem
     sip_number_auth_items: int
     server_name: str
+    sar_flags: int
     proxy_info: list[ProxyInfo]
     route_record: list[bytes]
 
